@@ -203,6 +203,15 @@ def expand_template(tpl_text, repo, tpl_name='unit', canary=False):
 
     while i < len(lines):
         line = lines[i]
+        mc = re.match(r'\s*//@@\s+canary\s+(.*)$', line)
+        if mc:
+            # vacuity guard for hand-written lemmas: in canary mode the lemma body starts with
+            # assert(false), which must fail (its hypotheses are not contradictory as far as Z3 can tell)
+            if canary:
+                out_lines.append('assert(false); /*CANARY lemma %s*/' % mc.group(1).strip())
+                ex.canaries.append('lemma ' + mc.group(1).strip())
+            i += 1
+            continue
         m = re.match(r'\s*//@@\s+(fn|item)\s+(.*)$', line)
         if not m:
             out_lines.append(line)
